@@ -3,21 +3,29 @@
 nothing from /verif)"""
 import json, sys
 pid = sys.argv[1]
+import glob, os
+prev = []
+for f in sorted(glob.glob('/verif/seeded/%s-*/meta.json' % pid)):
+    prev.append(json.load(open(f)).get('breaks', ''))
+ALREADY = ''
+if prev and len(sys.argv) > 2:
+    ALREADY = '\n\nOther testers already produced the following changes; yours must be DIFFERENT in mechanism and in the part of the code they touch:\n' + '\n'.join(' - ' + x for x in prev)
 wt = '/tmp/seed-' + pid.lower()
 for l in open('/verif/properties.jsonl'):
     p = json.loads(l)
     if p['id'] == pid:
         break
-print(f'''You are helping test a verification setup by writing realistic *breaking changes* (seeded bugs) for the Go project StyraInc/regal (a Rego linter / fixer / language server). Work ONLY inside the git worktree {wt} (a checkout of the project; do not touch /repo or /verif, do not read anything under /verif).
+TEXT = (f'''You are helping test a verification setup by writing realistic *breaking changes* (seeded bugs) for the Go project StyraInc/regal (a Rego linter / fixer / language server). Work ONLY inside the git worktree {wt} (a checkout of the project; do not touch /repo or /verif, do not read anything under /verif).
 
 Go environment (no network): `export GO=/root/go/pkg/mod/golang.org/toolchain@v0.0.1-go1.24.0.linux-amd64/bin/go GOTOOLCHAIN=local GOFLAGS=-mod=mod GOPROXY=off GOSUMDB=off` then `$GO build ./...`, `$GO test -vet=off -count=1 ./pkg/... ./internal/... ./cmd/...`. Rego (.rego) files under bundle/ are embedded into the binary (go:embed), so Rego edits take effect on rebuild; Rego unit tests: `$GO run . test bundle`. The machine is shared and may be loaded; be patient (internal/lsp tests have a known timing flake under load: re-run if only a timeout fails).
 
 The property your changes must break:
 "{p['title']}. {p['statement']}" (quantified: {p['quantifier']['text']}). Relevant code: {', '.join(p['anchors']['files'])}.
 
-Produce TWO different, independent changes (each a small edit a developer could plausibly make by mistake or as a "simplification"/"optimisation"), each of which:
+{{ALREADY_PLACEHOLDER}}Produce TWO different, independent changes (each a small edit a developer could plausibly make by mistake or as a "simplification"/"optimisation"), each of which:
  - still compiles and passes the existing test suite (Go tests; and `regal test bundle` if you touch Rego),
  - breaks the property, but only for something specific to manifest (a particular interleaving, a crash or fault at a particular point, a multi-step sequence of operations, an unusual input, a particular configuration shape, or two cooperating sites that each look fine alone) — NOT something that ordinary use would expose at once,
  - comes with a demonstration: a Go test file (or small program/script) that FAILS with your change applied and PASSES on the unchanged code.
 
 For each change write into /tmp/seed-{pid.lower()}-out/<n>/ (n = 1, 2): `patch.diff` (`git diff` of the source change only, without the demonstration), `demo_test.go` (first lines: a comment `// Place this file in: <package dir>/` and `// Run with: go test -vet=off -count=1 -run '<TestName>' ./<package dir>/`), `README.md` (what the change does, which part of the property it breaks, what exactly is needed for it to manifest, commands run and results on changed and unchanged code). After saving each change, reset the worktree (`git checkout -- . && git clean -fd`). Never use `git stash` (the stash is shared between all worktrees of the repository and other agents use it concurrently). Finish with a short summary.''')
+print(TEXT.replace('{ALREADY_PLACEHOLDER}', (ALREADY.strip() + '\n\n') if ALREADY else ''))
